@@ -43,6 +43,7 @@ type wspec struct {
 }
 
 type foundV struct {
+	warmAlone bool // found by comparing a long-lived worker's result with a run-alone reference
 	run  int
 	e    int
 	cold bool
@@ -70,6 +71,7 @@ type aggT struct {
 	pairs      map[string]bool
 	found      []foundV
 	failed     []string
+	aloneRefs    int64
 	coldEpisodes int64
 	coldMidcall  int64
 }
@@ -146,6 +148,9 @@ func runWorker(a *aggT, s wspec, tier string, seed uint64, deadline int64, sites
 			a.found = append(a.found, foundV{e: r.E, race: s.race, v: v, plan: r.Plan})
 		}
 		a.mu.Unlock()
+		if len(r.BaseA) > 0 && len(r.Violations) == 0 && !s.race {
+			aloneCheck(a, seed, tier == "thorough", r.E, r.BaseA, sites)
+		}
 	}
 	err = cmd.Wait()
 	code := 0
@@ -208,6 +213,26 @@ func raceSummary(txt string) string {
 
 // replayFresh runs a replay file in a fresh process of the right build.
 func replayFresh(rf *ReplayFile, sites string, timeout time.Duration) (vs []Violation, raced bool, racelog string, err error) {
+	if rf.WarmAlone {
+		// re-run the worker's share up to and including the episode, then compare
+		// its sequential results with run-alone references
+		out, code, err := runProc(timeout, nil, os.Getenv("CONSIM_BIN_PLAIN"), "worker", rf.Tier, strconv.FormatUint(rf.Seed, 10), strconv.Itoa(rf.WorkerW), strconv.Itoa(rf.WorkerNW), "0", sites, strconv.Itoa(rf.EpisodeIndex+1), strconv.Itoa(rf.WorkerK))
+		if err != nil || code != 0 {
+			return nil, false, "", fmt.Errorf("worker re-run failed: code=%d err=%v", code, err)
+		}
+		tmp := &aggT{traces: map[uint64]bool{}, nontrivial: map[uint64]bool{}, sitesHit: map[int]bool{}, strategies: core.Counter{}, kinds: core.Counter{}, pairs: map[string]bool{}}
+		for _, l := range strings.Split(out, "\n") {
+			var r epReport
+			if json.Unmarshal([]byte(l), &r) != nil || r.Begin || r.Done || r.E != rf.EpisodeIndex || len(r.BaseA) == 0 {
+				continue
+			}
+			aloneCheck(tmp, rf.Seed, rf.Tier == "thorough", r.E, r.BaseA, sites)
+		}
+		for _, f := range tmp.found {
+			vs = append(vs, f.v)
+		}
+		return vs, false, "", nil
+	}
 	if rf.Cold {
 		fix, err := coldFixtures(rf.Episode.FixSeed)
 		if err != nil {
@@ -336,6 +361,45 @@ func runProc(timeout time.Duration, env []string, bin string, args ...string) (s
 		cmd.Process.Kill()
 		<-done
 		return "", -1, fmt.Errorf("timeout")
+	}
+}
+
+// aloneCheck: a long-lived worker process has a history (all earlier episodes).
+// For a sample of warm episodes every stateless call of the sequential baseline
+// is run once more truly alone - its own fresh process, fixtures loaded as data -
+// and must give the same result: "regardless of what other calls ran before".
+func aloneCheck(a *aggT, seed uint64, thorough bool, e int, baseA [][]string, sites string) {
+	ep := genEpisode(seed, e, thorough)
+	fix, err := coldFixtures(ep.FixSeed)
+	if err != nil {
+		return
+	}
+	cold := map[string]bool{}
+	for _, k := range coldKinds {
+		cold[k] = true
+	}
+	n := 0
+	for t, calls := range ep.Tasks {
+		for i, c := range calls {
+			if !cold[c.K] || c.K == "dnewrand" || t >= len(baseA) || i >= len(baseA[t]) || n >= 12 {
+				continue
+			}
+			n++
+			one, _ := json.Marshal(&Episode{FixSeed: ep.FixSeed, EntSeed: ep.EntSeed, Tasks: [][]Call{{c}}})
+			o, code, err := runProc(5*time.Minute, nil, os.Getenv("CONSIM_BIN_PLAIN"), "cold-ref", string(one), fix, sites)
+			var oo coldOut
+			if err != nil || code != 0 || json.Unmarshal([]byte(o), &oo) != nil || len(oo.Results) != 1 || len(oo.Results[0]) != 1 {
+				continue
+			}
+			a.mu.Lock()
+			a.aloneRefs++
+			if oo.Results[0][0] != baseA[t][i] {
+				a.found = append(a.found, foundV{e: e, warmAlone: true, v: Violation{Property: "C15", Oracle: "history-dependent-result", Where: fmt.Sprintf("episode %d task%d/call%d", e, t, i),
+					Detail:    fmt.Sprintf("%s: alone in a fresh process %s, in a worker process that had run other calls before %s", c.K, short(oo.Results[0][0]), short(baseA[t][i])),
+					Signature: "history-dependent-result:long-history:" + c.K}})
+			}
+			a.mu.Unlock()
+		}
 	}
 }
 
@@ -630,6 +694,9 @@ func check(tier string) int {
 		seen[f.v.Oracle] = true
 		rf := &ReplayFile{Property: "C15", Oracle: f.v.Oracle, Engine: "consim", Tier: tier, Seed: seed, EpisodeIndex: f.e, TreeHash: tree, SiteTable: st.Hash, Race: f.race,
 			Episode: genEpisode(seed, f.e, thorough), Plan: f.plan, RaceReport: f.log, Cold: f.cold, RunIndex: f.run}
+		if f.warmAlone {
+			rf.WarmAlone, rf.WorkerW, rf.WorkerNW, rf.WorkerK = true, f.e%plainW, plainW, kPlain
+		}
 		if f.cold {
 			rf.Episode = genColdEpisode(seed, f.e)
 		}
@@ -654,7 +721,7 @@ func check(tier string) int {
 			fmt.Fprintf(os.Stderr, "consim: episode %d reported %s but a fresh-process replay did not reproduce it\n", f.e, f.v.String())
 			unconfirmed++
 			continue
-		} else {
+		} else if !rf.WarmAlone {
 			min = minimiseReplay(rf, sites, 120*time.Second)
 		}
 		path := filepath.Join(envOr("VERIF_REPLAY_DIR", filepath.Join(root, "replays")), fmt.Sprintf("C15-%d-%d-%s.json", seed, f.e, f.v.Oracle))
@@ -690,6 +757,7 @@ func check(tier string) int {
 		"exhaustive":          false,
 		"episodes":            a.episodes,
 		"cold_start_episodes": a.coldEpisodes,
+		"warm_calls_compared_with_a_run_alone_reference": a.aloneRefs,
 		"cold_start_episodes_with_midcall_preemption": a.coldMidcall,
 		"race_build_runs":     a.raceRuns,
 		"plain_build_runs":    a.runs - a.raceRuns,
